@@ -50,6 +50,13 @@ def _tx_key(eng, x, st):
 
 # level / notes per property; functions and lemmas come from the props tags on the contracts
 PROPS = {
+    'C06': dict(level='proof', native=['native.c06'],
+                explanation="lemmas over the verified validator / evidence / codec contracts: two blocks accepted by full "
+                            "validation on the same chain with the same header have the same encoding (the evidence commits "
+                            "to the complete transaction list); same id implies same header; every field of every consensus "
+                            "class is written by its encoder. That no single-bit neighbour or truncation of a valid block is "
+                            "accepted rests on hash outputs and is exercised exhaustively per generated block by a bounded "
+                            "sweep with the real decoder and validators (reported under `bounded`, not counted as proved)"),
     'C17': dict(level='proof', native=['native.c17'],
                 explanation="get_merkle_root verified from source against the specification function mroot (loop invariant "
                             "over the next level, recursion through the function's own contract with a decreasing length); "
